@@ -260,7 +260,7 @@ def run_with_agent(name, triggers, journal=None, push_fail_at=None, push_exc=Non
     def checkpoint(tag):
         # called by the harness wrapper at the end of each program thread: is the agent still this thread's trace function?
         marks[tag] = getattr(sys.gettrace(), '__self__', None) is handler
-    saved_inspect = TR.inspect
+    saved_inspect = getattr(TR, 'inspect', None) or __import__('inspect')      # the source-lookup seam, where the agent has one
 
     class NoSource:
         def getsourcelines(self, frame):
@@ -269,7 +269,8 @@ def run_with_agent(name, triggers, journal=None, push_fail_at=None, push_exc=Non
 
         def __getattr__(self, n):
             return getattr(saved_inspect, n)
-    TR.inspect = NoSource()
+    if hasattr(TR, 'inspect'):
+        TR.inspect = NoSource()
     # program threads: wrap Thread.run so each records a checkpoint at its very end
     real_run = threading.Thread.run
 
@@ -289,7 +290,8 @@ def run_with_agent(name, triggers, journal=None, push_fail_at=None, push_exc=Non
     finally:
         threading.Thread.run = real_run
         threading.excepthook = hook
-        TR.inspect = saved_inspect
+        if hasattr(TR, 'inspect'):
+            TR.inspect = saved_inspect
     after = getattr(run.trace_after, '__self__', None) is handler
     obs = observe(lo, run, None)
     obs['trace_after'] = after
